@@ -112,11 +112,13 @@ impl GhostQueue {
             // only the oldest entries are dropped, and only as many as needed to make room
             old(self).capacity > 0 ==> exists|k: int| #[trigger] dropped_oldest(old(self).queue@, k, final(self).queue@.drop_last(), weight, old(self).capacity), // @label window_drops_oldest_first_and_no_more_than_needed
             old(self).capacity > 0 ==> (final(self).weight <= old(self).capacity || final(self).weight == weight), // @label window_stays_within_capacity_unless_the_new_entry_alone_exceeds_it
+            final(self).weight <= old(self).weight + weight,
 //@loop 1
             invariant
                 self.wf(), self.capacity == old(self).capacity, self.capacity > 0, self.weight + weight <= usize::MAX,
                 exists|k: int| #[trigger] dropped_oldest(old(self).queue@, k, self.queue@, weight, old(self).capacity), // @label only_a_prefix_of_oldest_entries_has_been_dropped
                 forall|h: u64| self.counts@.contains(h) ==> old(self).counts@.contains(h),
+                self.weight <= old(self).weight,
             decreases self.queue@.len(),
 //@before /while self\.weight \+ weight > self\.capacity/
         proof { assert(dropped_oldest(old(self).queue@, 0, self.queue@, weight, old(self).capacity)) by { assert(old(self).queue@.subrange(0, old(self).queue@.len() as int) =~= old(self).queue@); } }
@@ -191,6 +193,204 @@ impl S3T {
             // the small queue is forced only after the main queue had nothing
             forall|i: int| old(self).scans@.len() <= i < final(self).scans@.len() && (#[trigger] final(self).scans@[i]) == Scan::SmallForced ==> i > 0 && final(self).scans@[i - 1] == Scan::Main && old(self).main_answer@ is None, // @label small_queue_is_forced_only_after_the_main_queue_was_empty
 //@end
+}
+
+
+// =====================================================================================================
+// S3Fifo::evict_small / evict_main (C14): the two queue scans over stand-in queues (the real ones are intrusive lists;
+// `&mut *record.state().get()` becomes a field borrow). Records are identified by a ghost id.
+//   small: records accessed at least `threshold` times move to the main queue (in order), the first one that was not
+//          is the victim: frequency reset, its hash enters the ghost queue.
+//   main:  a record whose frequency was still positive gets another round (frequency - 1, to the back), the first one
+//          with frequency 0 is the victim.
+// =====================================================================================================
+//@item foyer-memory/src/eviction/s3fifo.rs :: enum Queue rules=derive-structural sub=@enum Queue@pub enum Queue@
+pub struct StT { pub freq: u8, pub queue: Queue }
+impl StT {
+    pub fn frequency(&self) -> (r: u8) ensures r == self.freq { self.freq }
+    pub fn set_frequency(&mut self, val: u8) ensures final(self).freq == val, final(self).queue == old(self).queue { self.freq = val; }
+    /// `fetch_update(.., |v| Some(v.saturating_sub(1))).unwrap()`: returns the PREVIOUS value
+    pub fn dec_frequency(&mut self) -> (r: u8)
+        ensures r == old(self).freq, final(self).freq == (if old(self).freq > 0 { (old(self).freq - 1) as u8 } else { 0u8 }), final(self).queue == old(self).queue,
+    { let v = self.freq; if v > 0 { self.freq = v - 1; } v }
+}
+pub struct QRec { pub id: Ghost<int>, pub st: StT, pub w: usize, pub h: u64 }
+impl QRec {
+    pub fn weight(&self) -> (r: usize) ensures r == self.w { self.w }
+    pub fn hash(&self) -> (r: u64) ensures r == self.h { self.h }
+}
+#[verifier::external_body]
+pub struct ListT { _p: core::marker::PhantomData<QRec> }
+impl ListT {
+    pub uninterp spec fn view(&self) -> Seq<QRec>;
+    #[verifier::external_body]
+    pub fn pop_front(&mut self) -> (r: Option<QRec>)
+        ensures old(self)@.len() == 0 ==> r is None && final(self)@ == old(self)@,
+            old(self)@.len() > 0 ==> r == Some(old(self)@[0]) && final(self)@ == old(self)@.subrange(1, old(self)@.len() as int),
+    { unimplemented!() }
+    #[verifier::external_body]
+    pub fn push_back(&mut self, r: QRec) ensures final(self)@ == old(self)@.push(r) { }
+}
+pub open spec fn ids(s: Seq<QRec>) -> Seq<int> { s.map_values(|r: QRec| r.id@) }
+pub open spec fn qsum(s: Seq<QRec>) -> nat decreases s.len() { if s.len() == 0 { 0 } else { qsum(s.drop_last()) + s.last().w as nat } }
+pub proof fn lemma_qsum_pop_front(s: Seq<QRec>)
+    requires s.len() > 0,
+    ensures qsum(s.subrange(1, s.len() as int)) + s[0].w as nat == qsum(s),
+    decreases s.len(),
+{
+    if s.len() == 1 { assert(s.subrange(1, 1) =~= Seq::empty()); assert(s.drop_last() =~= Seq::empty()); }
+    else {
+        let t = s.subrange(1, s.len() as int);
+        lemma_qsum_pop_front(s.drop_last());
+        assert(t.drop_last() =~= s.drop_last().subrange(1, s.len() - 1));
+        assert(t.last() == s.last()); assert(s.drop_last()[0] == s[0]);
+    }
+}
+pub open spec fn fsum(s: Seq<QRec>) -> nat decreases s.len() { if s.len() == 0 { 0 } else { fsum(s.drop_last()) + s.last().st.freq as nat } }
+pub proof fn lemma_fsum_pop_front(s: Seq<QRec>)
+    requires s.len() > 0,
+    ensures fsum(s.subrange(1, s.len() as int)) + s[0].st.freq as nat == fsum(s),
+    decreases s.len(),
+{
+    if s.len() == 1 { assert(s.subrange(1, 1) =~= Seq::empty()); assert(s.drop_last() =~= Seq::empty()); }
+    else {
+        let t = s.subrange(1, s.len() as int);
+        lemma_fsum_pop_front(s.drop_last());
+        assert(t.drop_last() =~= s.drop_last().subrange(1, s.len() - 1));
+        assert(t.last() == s.last()); assert(s.drop_last()[0] == s[0]);
+    }
+}
+pub proof fn lemma_fsum_push(s: Seq<QRec>, x: QRec) ensures fsum(s.push(x)) == fsum(s) + x.st.freq as nat { assert(s.push(x).drop_last() =~= s); }
+pub proof fn lemma_qsum_push(s: Seq<QRec>, x: QRec) ensures qsum(s.push(x)) == qsum(s) + x.w as nat { assert(s.push(x).drop_last() =~= s); }
+/// index of the first record in the small queue that was accessed fewer than `thr` times (len if none)
+pub open spec fn first_cold(s: Seq<QRec>, thr: u8) -> int decreases s.len() {
+    if s.len() == 0 { 0 } else if s[0].st.freq < thr { 0 } else { 1 + first_cold(s.subrange(1, s.len() as int), thr) }
+}
+pub struct QueuesT { pub ghost_queue: GhostQueue, pub small_queue: ListT, pub main_queue: ListT, pub small_weight: usize, pub main_weight: usize, pub small_to_main_freq_threshold: u8 }
+impl QueuesT {
+    pub open spec fn wfq(&self) -> bool {
+        self.small_weight == qsum(self.small_queue@) && self.main_weight == qsum(self.main_queue@) && self.ghost_queue.wf()
+            && qsum(self.small_queue@) + qsum(self.main_queue@) + self.ghost_queue.weight <= usize::MAX
+    }
+//@region foyer-memory/src/eviction/s3fifo.rs :: impl~^impl<K, V, P> S3Fifo<K, V, P>/fn evict_small name=s3fifo_evict_small whole=1 sub=@while let Some\(record\)@while let Some(mut record)@ sub=@unsafe \{ &mut \*record\.state\(\)\.get\(\) \}@&mut record.st@
+//@head
+    fn s3fifo_evict_small(&mut self) -> (r: Option<QRec>)
+        requires old(self).wfq(),
+        ensures
+            final(self).wfq(), // @label queue_weights_stay_exact
+            final(self).small_to_main_freq_threshold == old(self).small_to_main_freq_threshold,
+            ({
+                let s = old(self).small_queue@; let n = first_cold(s, old(self).small_to_main_freq_threshold);
+                &&& 0 <= n <= s.len()
+                &&& ids(final(self).main_queue@) == ids(old(self).main_queue@) + ids(s.subrange(0, n))
+                &&& (n < s.len() ==> r is Some && r.unwrap().id@ == s[n].id@ && r.unwrap().st.freq == 0 && r.unwrap().st.queue == Queue::None
+                        && ids(final(self).small_queue@) == ids(s.subrange(n + 1, s.len() as int))
+                        && final(self).ghost_queue.contains_hash(s[n].h))
+                &&& (n == s.len() ==> r is None && final(self).small_queue@.len() == 0)
+            }), // @label accessed_records_move_to_main_in_order_and_the_first_cold_one_is_the_victim_and_enters_the_ghost_queue
+//@prologue
+        let ghost s0 = self.small_queue@;
+        let ghost m0 = self.main_queue@;
+        let ghost thr = self.small_to_main_freq_threshold;
+        let ghost mut k: int = 0;
+        proof { assert(s0.subrange(0, s0.len() as int) =~= s0); assert(ids(s0.subrange(0, 0)) =~= Seq::<int>::empty()); assert(ids(m0) + Seq::<int>::empty() =~= ids(m0)); }
+//@loop 1
+            invariant
+                0 <= k <= s0.len(), self.small_queue@ == s0.subrange(k, s0.len() as int),
+                ids(self.main_queue@) == ids(m0) + ids(s0.subrange(0, k)),
+                first_cold(s0, thr) == k + first_cold(self.small_queue@, thr),
+                self.small_to_main_freq_threshold == thr, self.wfq(),
+                s0 == old(self).small_queue@, m0 == old(self).main_queue@, thr == old(self).small_to_main_freq_threshold,
+            ensures self.small_queue@.len() == 0,
+            decreases self.small_queue@.len(),
+//@before /let state = &mut record\.st;/
+            let ghost rec0 = record;
+            let ghost main_before = self.main_queue@;
+            let ghost before = s0.subrange(k, s0.len() as int);
+            proof {
+                assert(before.len() > 0);
+                lemma_qsum_pop_front(before);
+                assert(rec0 == s0[k]);
+                assert(before.subrange(1, before.len() as int) =~= s0.subrange(k + 1, s0.len() as int));
+            }
+//@after /self\.main_queue\.push_back\(record\);/
+                proof {
+                    lemma_qsum_push(main_before, self.main_queue@.last());
+                    assert(ids(s0.subrange(0, k + 1)) =~= ids(s0.subrange(0, k)).push(s0[k].id@));
+                    assert(ids(self.main_queue@) =~= ids(main_before).push(rec0.id@));
+                    assert(ids(self.main_queue@) =~= ids(m0) + ids(s0.subrange(0, k + 1)));
+                    assert(first_cold(before, thr) == 1 + first_cold(before.subrange(1, before.len() as int), thr));
+                    k = k + 1;
+                }
+//@before /return Some\(record\);/
+                proof {
+                    assert(first_cold(before, thr) == 0);
+                    assert(ids(self.small_queue@) == ids(s0.subrange(k + 1, s0.len() as int)));
+                }
+//@before /^\s*None\s*$/
+        proof { assert(first_cold(self.small_queue@, thr) == 0); }
+//@end
+//@region foyer-memory/src/eviction/s3fifo.rs :: impl~^impl<K, V, P> S3Fifo<K, V, P>/fn evict_main name=s3fifo_evict_main whole=1 sub=@while let Some\(record\)@while let Some(mut record)@ sub=@unsafe \{ &mut \*record\.state\(\)\.get\(\) \}@&mut record.st@
+//@head
+    fn s3fifo_evict_main(&mut self) -> (r: Option<QRec>)
+        requires old(self).wfq(),
+        ensures
+            final(self).wfq(), // @label queue_weights_stay_exact
+            final(self).small_queue@ == old(self).small_queue@ && final(self).ghost_queue == old(self).ghost_queue,
+            (r is None) == (old(self).main_queue@.len() == 0), // @label a_non_empty_main_queue_always_yields_a_victim
+            r matches Some(v) ==> v.st.freq == 0 && v.st.queue == Queue::None && ids(old(self).main_queue@).contains(v.id@)
+                && final(self).main_queue@.len() == old(self).main_queue@.len() - 1, // @label victim_of_the_main_queue_has_used_up_its_second_chances
+            // no second chance to give: plain FIFO
+            old(self).main_queue@.len() > 0 && old(self).main_queue@[0].st.freq == 0 ==>
+                r.unwrap().id@ == old(self).main_queue@[0].id@ && final(self).main_queue@ == old(self).main_queue@.subrange(1, old(self).main_queue@.len() as int), // @label head_without_second_chance_is_evicted_first
+            // a head that was accessed since it entered is not the victim while another record is in the queue... it goes to the back with one chance less
+            old(self).main_queue@.len() > 1 && old(self).main_queue@[0].st.freq > 0 && old(self).main_queue@[1].st.freq == 0 ==>
+                r.unwrap().id@ == old(self).main_queue@[1].id@, // @label accessed_head_gets_a_second_chance
+//@prologue
+        let ghost m0 = self.main_queue@;
+        let ghost mut rounds: int = 0;
+        let ghost mut cur = self.main_queue@;
+        proof { assert forall|i: int| 0 <= i < m0.len() implies ids(m0).contains((#[trigger] m0[i]).id@) by { assert(ids(m0)[i] == m0[i].id@); } }
+//@loop 1
+            invariant
+                self.wfq(), self.small_queue@ == old(self).small_queue@, self.ghost_queue == old(self).ghost_queue, m0 == old(self).main_queue@,
+                self.main_queue@.len() == m0.len(), cur == self.main_queue@,
+                forall|i: int| 0 <= i < self.main_queue@.len() ==> ids(m0).contains((#[trigger] self.main_queue@[i]).id@),
+                rounds >= 0,
+                rounds == 0 ==> self.main_queue@ == m0,
+                rounds == 1 && m0.len() > 1 ==> m0[0].st.freq > 0 && self.main_queue@[0] == m0[1],
+                rounds > 0 ==> m0.len() > 0 && m0[0].st.freq > 0,
+                rounds >= 2 && m0.len() > 1 ==> m0[1].st.freq > 0,
+            ensures self.main_queue@.len() == 0 && m0.len() == 0,
+            decreases fsum(self.main_queue@),
+//@before /let state = &mut record\.st;/
+            let ghost rec0 = record;
+            let ghost before = cur;   // the queue as it was at the loop head
+            let ghost rest = self.main_queue@;
+            proof {
+                assert(before.len() > 0 && before[0] == rec0);
+                assert(before.subrange(1, before.len() as int) =~= rest);
+                lemma_qsum_pop_front(before);
+                lemma_fsum_pop_front(before);
+                assert(ids(m0).contains(rec0.id@));
+            }
+//@after /self\.main_queue\.push_back\(record\);/
+                proof {
+                    lemma_qsum_push(rest, self.main_queue@.last());
+                    lemma_fsum_push(rest, self.main_queue@.last());
+                    assert(self.main_queue@.last().id@ == rec0.id@);
+                    assert forall|i: int| 0 <= i < self.main_queue@.len() implies ids(m0).contains((#[trigger] self.main_queue@[i]).id@) by {
+                        if i < rest.len() { assert(self.main_queue@[i] == rest[i]); }
+                    }
+                    if rounds == 0 && m0.len() > 1 { assert(self.main_queue@[0] == rest[0]); assert(rest[0] == m0[1]); }
+                    rounds = rounds + 1;
+                    cur = self.main_queue@;
+                }
+//@end
+}
+pub open spec fn old_main_of(m: Seq<QRec>) -> Seq<QRec> { m.drop_last() }
+impl GhostQueue {
+    pub open spec fn contains_hash(&self, h: u64) -> bool { self.capacity > 0 ==> self.counts@.contains(h) }
 }
 
 } // verus!
